@@ -535,6 +535,9 @@ func GetServiceRequest(serviceType uint8) []byte {
 	serviceRequest.SetAMFSetID(uint16(0xFE) << 2)
 	serviceRequest.SetAMFPointer(0)
 	serviceRequest.SetTMSI5G([4]uint8{0, 0, 0, 1})
+	// TS 24.501 figure 9.11.3.4.4: octet 1 of a 5G-S-TMSI is 1111 0 100 (type of identity "5G-S-TMSI")
+	serviceRequest.TMSI5GS.Octet[0] = 0xF0
+	serviceRequest.TMSI5GS.SetTypeOfIdentity(nasMessage.MobileIdentity5GSType5gSTmsi)
 	serviceRequest.TMSI5GS.SetLen(7)
 	switch serviceType {
 	case nasMessage.ServiceTypeMobileTerminatedServices:
